@@ -5,7 +5,7 @@ from typing import Any, Callable
 
 from spec_classes.types import MISSING
 from spec_classes.utils.method_builder import MethodBuilder
-from spec_classes.utils.mutation import mutate_value
+from spec_classes.utils.mutation import _thawed, mutate_value
 from spec_classes.utils.type_checking import type_label
 
 from .base import MethodDescriptor
@@ -166,11 +166,12 @@ class ResetMethod(MethodDescriptor):
         if not _inplace:
             self = copy.deepcopy(self)
 
-        for attr in self.__spec_class__.attrs:
-            try:
-                delattr(self, attr)
-            except AttributeError:
-                pass
+        with _thawed(self, thaw=not _inplace):
+            for attr in self.__spec_class__.attrs:
+                try:
+                    delattr(self, attr)
+                except AttributeError:
+                    pass
 
         return self
 
